@@ -176,17 +176,23 @@ def r2(ctx):
     # zones
     z4 = fn_of(ctx, AT4_API, "At4Zone.supported_power_states")
     m4 = z4.module
-    src = norm_text(z4.node)
-    apps = [n for n, c in z4.calls("append")]
-    tests = z4.tests(lambda e: dotted(e) == "self._group_status.supports_turbo")
-    ok = bool(apps) and bool(tests) and all(z4.cfg.dominates(z4.branch(t, "true").id, n.id) for t in tests for n in apps) and all("TURBO" in norm_text(n.ast) for n in apps)
-    ctx.check(ok, R, "At4Zone.supported_power_states:turbo-iff-supported", m4, z4.node, "TURBO is offered only when the group status reports supports_turbo", "unconditional or missing")
+    # evaluated (sa/minieval.py) for both values of the reported flag: [OFF, ON] plus TURBO exactly when supports_turbo
+    from ..minieval import Mini, Unsupported
+
+    res = {}
+    for turbo in (False, True):
+        try:
+            v = Mini(ctx.repo, m4, {"self._group_status.supports_turbo": turbo}, z4.cls).function_value(z4.node, {})
+        except Unsupported as ex:
+            raise AnalysisError(f"{m4.relpath}: At4Zone.supported_power_states left the evaluable fragment: {ex}")
+        res[turbo] = sorted(getattr(x, "name", repr(x)) for x in (v or []))
+    ok = res[False] == ["OFF", "ON"] and res[True] == ["OFF", "ON", "TURBO"]
+    ctx.check(ok, R, "At4Zone.supported_power_states:turbo-iff-supported", m4, z4.node, "OFF and ON always, TURBO exactly when the group status reports supports_turbo", f"without turbo support: {res[False]}, with: {res[True]}")
+    fresh = not any(isinstance(x, ast.Return) and isinstance(x.value, (ast.Name, ast.Attribute)) and (ctx.repo.try_fold(m4, x.value) is not None or (isinstance(x.value, ast.Name) and x.value.id in m4.assigns)) for x in ast.walk(z4.node)) and not any(isinstance(x, ast.Assign) and isinstance(x.value, ast.Name) and x.value.id in m4.assigns for x in ast.walk(z4.node))
+    ctx.check(fresh, R, "At4Zone.supported_power_states:base", m4, z4.node, "the list is built anew on every call (a module-level list that is extended in place would keep TURBO for every zone)", "a shared module-level list is handed out or extended")
     z4c = m4.get_class("At4Zone")
     decs = z4c.method_decorators("supported_power_states")
     ctx.check(z4c.is_property("supported_power_states") and not any("cache" in d for d in decs), R, "At4Zone.supported_power_states:recomputed", m4, z4.node, "a plain @property evaluated on every call (the turbo flag arrives with every group status; a cached value goes stale)", ", ".join(decs))
-    base = [x for x in ast.walk(z4.node) if isinstance(x, ast.List)]
-    names = sorted(dotted(e).split(".")[-1] for e in base[0].elts) if base else []
-    ctx.check(names == ["OFF", "ON"], R, "At4Zone.supported_power_states:base", m4, z4.node, "OFF and ON are always supported", str(names))
     z5 = fn_of(ctx, AT5_API, "At5Zone.__init__")
     vals = [v for n, v in z5.assigns("self._supported_power_states")]
     ok = len(vals) == 1 and norm_text(vals[0]) in ("list(_API_ZONE_POWER_MAPPING.keys())", "list(_API_ZONE_POWER_MAPPING)")
